@@ -21,6 +21,10 @@ NAMES = ["foo", "bar", "k", "name", "x_1", "__tag__", "_private"]
 def gen_cases(tier, seed):
     rng = gen.rng_for(seed, PROP)
     cases = []
+
+    def value(lo, hi):
+        # tokens 1..7 are Python values that are equal to each other / falsy / None (see impl_c20.SPECIAL)
+        return rng.randint(1, 7) if rng.random() < 0.4 else rng.randint(lo, hi)
     n = 1500 if tier == "quick" else 15000
     for i in range(n):
         ops = []
@@ -29,19 +33,29 @@ def gen_cases(tier, seed):
         for _ in range(rng.randint(3, 14 if tier == "quick" else 30)):
             r = rng.random()
             if nobj == 0 or r < 0.12:
-                ops.append(["newplain", [[k, rng.randint(0, 9)] for k in rng.sample(NAMES, rng.randint(0, 2))]])
+                ops.append(["newplain", [[k, value(8, 9)] for k in rng.sample(NAMES, rng.randint(0, 2))]])
                 kinds.append("plain")
                 nobj += 1
             elif r < 0.32:
                 t = rng.randrange(nobj)
-                ops.append(["newlink", t, [[k, rng.randint(10, 19)] for k in rng.sample(NAMES, rng.randint(0, 2))],
-                            rng.choice(["node", "mixin"])])
+                kw = [[k, value(10, 19)] for k in rng.sample(NAMES, rng.randint(0, 2))]
+                if kw and rng.random() < 0.3:
+                    kw[0][1] = 4          # None as a constructor keyword value
+                ops.append(["newlink", t, kw, rng.choice(["node", "mixin"])])
+                if kw:
+                    ops.append(["get", rng.randrange(nobj + 1), kw[0][0]])
                 kinds.append("link")
                 nobj += 1
             elif r < 0.55:
                 x = rng.randrange(nobj)
                 k = rng.choice(NAMES)
-                ops.append(["set", x, k, rng.randint(20, 99)])
+                if rng.random() < 0.3:
+                    # two writes of values that compare equal but are different objects (1, True, 1.0 / 0, False)
+                    a, b = rng.choice([(1, 2), (2, 3), (3, 1), (5, 6), (6, 5), (2, 1)])
+                    ops.append(["set", rng.randrange(nobj), k, a])
+                    ops.append(["set", x, k, b])
+                else:
+                    ops.append(["set", x, k, value(20, 99)])
                 ops.append(["get", x, k])
                 # ... and through every other object: a link to it, or its target
                 ops.append(["get", rng.randrange(nobj), k])
